@@ -1,0 +1,184 @@
+//go:build verif
+
+// Verification hook for property C15 (workflow loading is deterministic and prunes disabled
+// roles). Add-only; compiled only with -tags verif. Nothing here changes the behaviour of the
+// package: VerifC15Load is the loadSubworkflow closure of Load (yaml.Unmarshal into a fresh
+// aggregatorRole, setParent) followed by ProcessTemplates, without the repository manager, the
+// file system and the task class refresh; VerifC15Dump reads the resulting tree.
+package workflow
+
+import (
+	"errors"
+
+	"github.com/AliceO2Group/Control/configuration/template"
+	"github.com/AliceO2Group/Control/core/repos"
+	"gopkg.in/yaml.v3"
+)
+
+// VerifC15Chan is the part of a bind/connect channel declaration the loader can touch plus
+// what identifies it.
+type VerifC15Chan struct {
+	Name      string `json:"name"`
+	Type      string `json:"type"`
+	Transport string `json:"transport"`
+	Target    string `json:"target"`
+	Global    string `json:"global"`
+}
+
+// VerifC15Node is one role of a processed tree as the rest of the core can see it.
+type VerifC15Node struct {
+	Kind        string            `json:"kind"` // aggregator | iterator | task | call | include
+	Name        string            `json:"name"`
+	Path        string            `json:"path"`
+	Enabled     string            `json:"enabled"` // the field as stored (for an iterator: its template's)
+	IsEnabled   bool              `json:"is_enabled"`
+	Defaults    map[string]string `json:"defaults"`
+	Vars        map[string]string `json:"vars"`
+	UserVars    map[string]string `json:"uservars"`
+	Constraints [][3]string       `json:"constraints"` // attribute, value, operator
+	Connect     []VerifC15Chan    `json:"connect"`
+	Bind        []VerifC15Chan    `json:"bind"`
+	Trigger     string            `json:"trigger"`
+	Await       string            `json:"await"`
+	Timeout     string            `json:"timeout"`
+	Critical    bool              `json:"critical"`
+	Load        string            `json:"load"`
+	Func        string            `json:"func"`
+	Return      string            `json:"return"`
+	Children    []*VerifC15Node   `json:"children"`
+}
+
+// VerifC15Load mirrors Load: unmarshal, attach to the parent, ProcessTemplates. `include:`
+// expressions are resolved against subs (keyed by the expression as written or as resolved by
+// the repository). stage reports how far it got: "unmarshal" or "templates".
+func VerifC15Load(doc []byte, subs map[string][]byte, parent Updatable, repo repos.IRepo, baseConfigStack map[string]string) (root Role, stage string, err error) {
+	parse := func(yamlDoc []byte, parent Updatable) (*aggregatorRole, error) {
+		r := new(aggregatorRole)
+		r.parent = parent
+		if err := yaml.Unmarshal(yamlDoc, r); err != nil {
+			return nil, err
+		}
+		if parent != nil {
+			r.setParent(parent)
+		}
+		return r, nil
+	}
+	var loadSubworkflow LoadSubworkflowFunc = func(workflowPathExpr string, parent Updatable) (*aggregatorRole, repos.IRepo, error) {
+		for k, v := range subs {
+			if k == workflowPathExpr || repo.ResolveSubworkflowTemplateIdentifier(k) == workflowPathExpr {
+				r, err := parse(v, parent)
+				return r, repo, err
+			}
+		}
+		return nil, nil, errors.New("verif: unknown subworkflow " + workflowPathExpr)
+	}
+	ar, err := parse(doc, parent)
+	if err != nil {
+		return nil, "unmarshal", err
+	}
+	if err = ar.ProcessTemplates(repo, loadSubworkflow, baseConfigStack); err != nil {
+		return nil, "templates", err
+	}
+	return ar, "templates", nil
+}
+
+// VerifC15IsRoleDisabled tells whether err is (or wraps) the "role disabled" marker.
+func VerifC15IsRoleDisabled(err error) bool {
+	var rde *template.RoleDisabledError
+	return errors.As(err, &rde)
+}
+
+func verifC15Base(n *VerifC15Node, b *roleBase) {
+	n.Name = b.Name
+	n.Path = b.GetPath()
+	n.Enabled = b.Enabled
+	n.IsEnabled = b.IsEnabled()
+	n.Defaults = map[string]string{}
+	n.Vars = map[string]string{}
+	n.UserVars = map[string]string{}
+	if b.Defaults != nil {
+		for k, v := range b.Defaults.Raw() {
+			n.Defaults[k] = v
+		}
+	}
+	if b.Vars != nil {
+		for k, v := range b.Vars.Raw() {
+			n.Vars[k] = v
+		}
+	}
+	if b.UserVars != nil {
+		for k, v := range b.UserVars.Raw() {
+			n.UserVars[k] = v
+		}
+	}
+	n.Constraints = [][3]string{}
+	for _, c := range b.Constraints {
+		n.Constraints = append(n.Constraints, [3]string{c.Attribute, c.Value, c.Operator.String()})
+	}
+	n.Connect = []VerifC15Chan{}
+	for _, c := range b.Connect {
+		n.Connect = append(n.Connect, VerifC15Chan{Name: c.Name, Type: string(c.Type), Transport: string(c.Transport), Target: c.Target})
+	}
+	n.Bind = []VerifC15Chan{}
+	for _, c := range b.Bind {
+		n.Bind = append(n.Bind, VerifC15Chan{Name: c.Name, Type: string(c.Type), Transport: string(c.Transport), Target: c.Target, Global: c.Global})
+	}
+}
+
+// VerifC15Dump walks the tree exactly as stored (Roles slices, iterator containers included).
+func VerifC15Dump(r Role) *VerifC15Node {
+	n := &VerifC15Node{Children: []*VerifC15Node{}}
+	var kids []Role
+	switch t := r.(type) {
+	case *aggregatorRole:
+		n.Kind = "aggregator"
+		verifC15Base(n, &t.roleBase)
+		kids = t.Roles
+	case *includeRole:
+		n.Kind = "include"
+		verifC15Base(n, &t.roleBase)
+		kids = t.Roles
+	case *iteratorRole:
+		n.Kind = "iterator"
+		n.Name = t.GetName()
+		n.Path = t.GetPath()
+		n.IsEnabled = t.IsEnabled()
+		switch tt := t.template.(type) {
+		case *aggregatorTemplate:
+			n.Enabled = tt.Enabled
+		case *taskTemplate:
+			n.Enabled = tt.Enabled
+		case *callTemplate:
+			n.Enabled = tt.Enabled
+		case *includeTemplate:
+			n.Enabled = tt.Enabled
+		}
+		kids = t.Roles
+	case *taskRole:
+		n.Kind = "task"
+		verifC15Base(n, &t.roleBase)
+		n.Trigger, n.Await, n.Timeout, n.Critical = t.Trigger, t.Await, t.Timeout, t.Critical
+		n.Load = t.LoadTaskClass
+	case *callRole:
+		n.Kind = "call"
+		verifC15Base(n, &t.roleBase)
+		n.Trigger, n.Await, n.Timeout, n.Critical = t.Trigger, t.Await, t.Timeout, t.Critical
+		n.Func, n.Return = t.FuncCall, t.ReturnVar
+	default:
+		n.Kind = "unknown"
+	}
+	for _, k := range kids {
+		n.Children = append(n.Children, VerifC15Dump(k))
+	}
+	return n
+}
+
+// VerifC15Visible is the child list the rest of the core sees (GetRoles: iterator containers
+// are transparent), recursively, as paths in order.
+func VerifC15Visible(r Role) []string {
+	out := []string{r.GetPath()}
+	for _, k := range r.GetRoles() {
+		out = append(out, VerifC15Visible(k)...)
+	}
+	return out
+}
